@@ -451,6 +451,12 @@ def fft_arms(an, prog):
     return out, b
 
 
+def dn_payload_types(prog):
+    """DataNumber variant -> payload type, read from the enum definition."""
+    adt = prog.adts.get("variable_versions::data_number::DataNumber") or {}
+    return {v["name"]: (v["fields"][0]["ty"] if v.get("fields") else "") for v in adt.get("variants", [])}
+
+
 def dn_width_table_rule(ctx, prog, an, rid):
     """DataNumber::parse: (width, signedness) -> big-endian primitive of that width and the like-named variant,
     without a narrowing cast; other widths rejected (shared: C04 R4.6, C05 R5.9)."""
@@ -464,8 +470,15 @@ def dn_width_table_rule(ctx, prog, an, rid):
                 ctx.ob(rid, DN_PARSE, "arm:(%d,%s)" % (L, sg), False, "no primitive/variant reached for (%d,%s)" % (L, sg))
                 continue
             pw, pv, narrowing, endian = r
-            ok = pw == L and endian == "be" and pv is not None and (PAYLOAD_BITS.get(pv, 0) >= 8 * L or sg) and pv == var
-            ctx.ob(rid, DN_PARSE, "arm:(%d,%s)" % (L, sg), ok, "(%d,%s) reads a %s-byte %s-endian primitive and builds DataNumber::%s (expected width %d, %s)" % (L, sg, pw, endian, pv, w, var))
+            # the variant is judged by its payload type (taken from the enum's definition), not by its name: wide
+            # enough for the bytes read (narrowing casts are the next obligation) and of the arm's signedness
+            pty = dn_payload_types(prog).get(pv, "")
+            bits = int(re.sub(r"\D", "", pty) or 0)
+            if pv in ("U24", "I24"):
+                bits = 24 if bits >= 24 else bits
+            okv = pv == var or (bool(pty) and pty.startswith("i" if sg else "u") and bits >= 8 * L)
+            ok = pw == L and endian == "be" and pv is not None and (PAYLOAD_BITS.get(pv, bits) >= 8 * L or sg) and okv
+            ctx.ob(rid, DN_PARSE, "arm:(%d,%s)" % (L, sg), ok, "(%d,%s) reads a %s-byte %s-endian primitive and builds DataNumber::%s(%s) (expected width %d, a %s payload of at least %d bits)" % (L, sg, pw, endian, pv, pty, w, "signed" if sg else "unsigned", 8 * L))
             ctx.ob(rid, DN_PARSE, "no-narrowing:(%d,%s)" % (L, sg), not narrowing,
                    "payload is %s" % ("narrowed by an `as` cast: the decoded value is not the big-endian interpretation of the %d bytes" % L if narrowing else "stored without narrowing"))
         for L in (0, 5, 6, 7, 9, 15, 17, 65535):
@@ -646,6 +659,9 @@ def run(ctx, env):
     ctx.rule("R4.12", "records are all-or-nothing: a decode step whose failure is tolerated (taken as the start of padding) has not appended anything to the reported collection by the time it fails - helpers that fill an out-parameter either have their failure propagated or insert only after their last fallible step")
     from . import consume as _cons
     _cons.partial_output_rule(ctx, prog, an, "R4.12", lambda b: b.path.startswith(("variable_versions::v9::", "variable_versions::data_number::")))
+    ctx.rule("R4.14", "a data flowset is decoded with the template in force at that point of the stream: every function that writes a template cache is reached from parse_bytes only through the per-flowset / per-set decode call of its protocol (FlowSet::parse), one flowset at a time and in order - no pre-pass over the packet learns templates ahead of the data that precedes them (shared with C06 R6.9)")
+    from .cache import CacheAccess as _CA14
+    _c06.rule_learned_in_stream_order(ctx, prog, _CA14(prog, an), "R4.14", only="V9Parser")
     ctx.rule("R4.13", "the records a decoder reports are made by that decode alone: every element added to the reported collection derives from the input slice, and the collection itself is created by the call - not the drained / taken content of storage kept in the parser object (a reusable buffer that a failed decode leaves half-filled would surface in a later packet) (shared with C02 R2.10)")
     _cons.foreign_rule(ctx, prog, an, "R4.13", lambda b: b.path.startswith(("variable_versions::v9::", "variable_versions::data_number::")), floor=0)
     # R4.11
